@@ -413,6 +413,82 @@ func TestVerifC12(t *testing.T) {
 			}
 		}
 	}
+	// REAL collisions of hashLpmSet: the hash streams (bits byte, address bytes) without
+	// framing, so a canonical [v4, v6] set and a [v6, v4] set of the same size can hash
+	// identically although they are different sets. Construct such pairs and use both in
+	// one program: the two rules must keep their own sets.
+	for i := 0; i < vk.Scale(300, 5000) && m.Violations() < 5; i++ {
+		b1 := r.IntN(31)
+		a1 := verifC12RandAddr(r, false).As4()
+		a2 := verifC12RandAddr(r, true).As16()
+		a2[0], a2[1] = 0x20, 0x01
+		a2[11] = byte(b1 + 1 + r.IntN(32-b1))
+		b2 := b1 + r.IntN(129-b1)
+		A := []netip.Prefix{netip.PrefixFrom(netip.AddrFrom4(a1), b1), netip.PrefixFrom(netip.AddrFrom16(a2), b2)}
+		var v6 [16]byte
+		copy(v6[0:4], a1[:])
+		v6[4] = byte(b2)
+		copy(v6[5:], a2[0:11])
+		B := []netip.Prefix{netip.PrefixFrom(netip.AddrFrom16(v6), b1), netip.PrefixFrom(netip.AddrFrom4([4]byte{a2[12], a2[13], a2[14], a2[15]}), int(a2[11]))}
+		if netip.AddrFrom16(v6).Is4In6() {
+			continue
+		}
+		ca, cb := canonicalizePrefixes(A), canonicalizePrefixes(B)
+		same := len(ca) == len(cb)
+		for j := 0; same && j < len(ca); j++ {
+			same = ca[j] == cb[j]
+		}
+		if hashLpmSet(ca) != hashLpmSet(cb) || same {
+			m.Count("constructed_pairs_not_colliding", 1)
+			continue
+		}
+		m.Count("real_hash_collisions_constructed", 1)
+		mk := func(fn string, set []netip.Prefix, out string) vk.RRule {
+			c := vk.RCond{Func: fn}
+			for _, pf := range set {
+				c.Params = append(c.Params, vk.RParam{Val: pf.String()})
+			}
+			return vk.RRule{Conds: []vk.RCond{c}, Out: vk.ROut{Name: out}}
+		}
+		fn := []string{"dip", "sip"}[r.IntN(2)]
+		p := &vk.RProg{Rules: []vk.RRule{mk(fn, A, "g0"), mk(fn, B, "g1")}, Fallback: vk.ROut{Name: "direct"}}
+		if r.IntN(2) == 0 {
+			p.Rules[0], p.Rules[1] = mk(fn, B, "g1"), mk(fn, A, "g0")
+		}
+		rules, fb, err := verifParseRouting(p.Text())
+		if err != nil {
+			m.Violation("frontend-error", err.Error(), map[string]any{"text": p.Text()})
+			continue
+		}
+		b, err := verifBuildMatcher(rules, fb, verifProductionOptimizers()...)
+		if err != nil {
+			m.Violation("build-error", err.Error(), map[string]any{"text": p.Text()})
+			continue
+		}
+		var strs []string
+		for _, pf := range append(append([]netip.Prefix(nil), A...), B...) {
+			strs = append(strs, pf.String())
+		}
+		for _, a := range verifC12Probes(r, strs) {
+			other := verifC12RandAddr(r, a.Is6()).Unmap()
+			if other.Is4() != a.Is4() {
+				continue
+			}
+			pk := vk.RPkt{L4: "udp", Src: netip.AddrPortFrom(other, 1), Dst: netip.AddrPortFrom(a, 80)}
+			if fn == "sip" {
+				pk.Src, pk.Dst = netip.AddrPortFrom(a, 1), netip.AddrPortFrom(other, 80)
+			}
+			m.Eval(1)
+			ref := vk.RefRoute(p, pk)
+			d, rerr := verifRoute(b, pk)
+			if rerr != nil || d.Outbound != ref.Outbound {
+				m.Violation("set-sharing-on-real-hash-collision", fmt.Sprintf("two different sets with equal hashLpmSet share storage: got %v want %v", d, ref),
+					map[string]any{"text": p.Text(), "addr": a.String(), "lpm_sets": len(b.snap.simulatedLpmTries)})
+				break
+			}
+		}
+	}
+	m.Require("real_hash_collisions_constructed")
 	m.Require("trie_inside", "trie_outside", "kern_inside", "kern_outside", "slash0_v4_sets", "slash0_v6_sets", "programs_with_shared_sets", "forced_hash_collisions")
 	m.Done(t)
 }
